@@ -154,6 +154,8 @@ impl Scripts {
 // a channel state reached through the public API
 
 struct Built {
+    /// allowlist entry names configured so far (the harness's own bookkeeping)
+    allow_now: std::sync::Mutex<Vec<String>>,
     fx: NodeFx,
     id: ChannelId,
     scripts: Scripts,
@@ -206,8 +208,12 @@ fn holder_commit(b: &Built, cc: &TestChannelContext, n: u64, c: (u64, u64, usize
     Ok(())
 }
 
-/// counterparty side: sign its commitment n; for n > 0 it then revokes n - 1
+/// counterparty side: sign its commitment n; for n > 0 it then revokes n - 1 (unless `revoke` is false)
 fn cp_commit(b: &Built, n: u64, c: (u64, u64, usize)) -> Result<(), String> {
+    cp_commit_opt(b, n, c, true)
+}
+
+fn cp_commit_opt(b: &Built, n: u64, c: (u64, u64, usize), revoke: bool) -> Result<(), String> {
     let pt = tree_point(&TREE_A, n);
     // an HTLC the holder receives is offered by the counterparty
     let offered: Vec<HTLCInfo2> = (0..c.2).map(|_| htlc()).collect();
@@ -216,7 +222,7 @@ fn cp_commit(b: &Built, n: u64, c: (u64, u64, usize)) -> Result<(), String> {
             chan.sign_counterparty_commitment_tx_phase2(&pt, n, 0, c.0, c.1, offered.clone(), vec![])
         })
         .map_err(|e| st_err("sign_counterparty_commitment", e))?;
-    if n > 0 {
+    if n > 0 && revoke {
         let sk = tree_secret(&TREE_A, n - 1);
         b.fx.node
             .with_channel(&b.id, |chan| chan.validate_counterparty_revocation(n - 1, &sk))
@@ -246,7 +252,8 @@ fn build_state(st: &Value) -> Result<Built, String> {
         .setup_channel(id.clone(), None, setup.clone(), &shutdown_path)
         .map_err(|e| st_err("setup_channel", e))?;
     let cc = TestChannelContext { channel_id: id.clone(), setup, counterparty_keys };
-    let b = Built { fx, id, scripts, outpoint, chv };
+    let allow_now = std::sync::Mutex::new(if upfront == "S1" { vec!["S1".to_string()] } else { vec![] });
+    let b = Built { allow_now, fx, id, scripts, outpoint, chv };
 
     let hist = st["hist"].as_str().unwrap();
     let c0 = content_of(&st["c0"]);
@@ -265,6 +272,12 @@ fn build_state(st: &Value) -> Result<Built, String> {
             cp_commit(&b, 0, c0)?;
             holder_commit(&b, &cc, 1, ch)?;
             cp_commit(&b, 1, ccn)?;
+        }
+        "updp" => {
+            holder_commit(&b, &cc, 0, c0)?;
+            cp_commit(&b, 0, c0)?;
+            holder_commit(&b, &cc, 1, ch)?;
+            cp_commit_opt(&b, 1, ccn, false)?;
         }
         _ => return Err(format!("unknown hist {}", hist)),
     }
@@ -288,6 +301,7 @@ fn build_state(st: &Value) -> Result<Built, String> {
         let names: Vec<String> =
             g["allow"].as_array().unwrap().iter().map(|x| x.as_str().unwrap().to_string()).collect();
         b.fx.node.set_allowlist(&b.scripts.allow_entries(&names)).map_err(|e| st_err("set_allowlist", e))?;
+        *b.allow_now.lock().unwrap() = names.clone();
         let (vh, vc) = (limbs_to_u64(&g["vh"]), limbs_to_u64(&g["vc"]));
         let hs = b.scripts.get(g["hs"].as_str().unwrap());
         let cs = b.scripts.get(g["cs"].as_str().unwrap());
@@ -410,8 +424,21 @@ fn run_case(b: &Built, sid: u64, idx: usize, c: &Value) -> Value {
     let (order, hintpos, form) = (c[8].as_str().unwrap(), c[9].as_str().unwrap(), c[10].as_str().unwrap());
     let sc = &b.scripts;
 
-    // the allowlist at signing time, configured through the public API
-    b.fx.node.set_allowlist(&sc.allow_entries(&allow)).expect("set_allowlist");
+    // the allowlist at signing time, configured through the public API: entries are added or removed
+    // when the previous configuration allows it, otherwise the list is replaced
+    {
+        let mut cur = b.allow_now.lock().unwrap();
+        let missing: Vec<String> = allow.iter().filter(|x| !cur.contains(*x)).cloned().collect();
+        let extra: Vec<String> = cur.iter().filter(|x| !allow.contains(*x)).cloned().collect();
+        if !missing.is_empty() && extra.is_empty() {
+            b.fx.node.add_allowlist(&sc.allow_entries(&missing)).expect("add_allowlist");
+        } else if missing.is_empty() && !extra.is_empty() {
+            b.fx.node.remove_allowlist(&sc.allow_entries(&extra)).expect("remove_allowlist");
+        } else if !missing.is_empty() || !extra.is_empty() || idx % 2 == 0 {
+            b.fx.node.set_allowlist(&sc.allow_entries(&allow)).expect("set_allowlist");
+        }
+        *cur = allow.clone();
+    }
     let allow_real = b.fx.node.allowlist().unwrap_or_default();
 
     let (hc, cc, closed0) = observed_commitments(b);
